@@ -49,10 +49,11 @@ pub fn gen_plan(rng: &mut Rng, focus: &str, tier: &str, case_idx: u64) -> Plan {
     let stack_only = focus == "c20" && (case_idx == 1 || case_idx == 2 || deep_ref);
     let low_principal = focus == "c20" && case_idx == 2;     // the principal mapping lies BELOW the executable
     let many = boundary || (focus == "c06" && rng.chance(1, 2));
-    let nthreads = if force_k1 || stack_only { 3 } else if boundary { 27 } else if many { rng.range(19, if tier == "thorough" { 63 } else { 26 }) } else { match rng.below(4) { 0 => 0, 1 => 1, _ => rng.range(2, 6) } } as usize;
+    let interrupted = focus == "c04" && case_idx == 1;   // one fixed C04 shape per run: many threads, the dumping thread is interrupted all along
+    let nthreads = if force_k1 || stack_only { 3 } else if interrupted { 24 } else if boundary { 27 } else if many { rng.range(19, if tier == "thorough" { 63 } else { 26 }) } else { match rng.below(4) { 0 => 0, 1 => 1, _ => rng.range(2, 6) } } as usize;
     let offs = [0u32, 8, 2040, 2047, 2048, 2056, 4088, 4095, 0xea0, 0x10];
     let threads: Vec<ThreadSpec> = (0..nthreads).map(|i| ThreadSpec {
-        kind: if force_k1 && i == 1 { Kind::NullSp } else if boundary || stack_only { Kind::Block } else if focus == "c04" && rng.chance(1, 5) { Kind::Spin } else if rng.chance(1, 12) { Kind::NullSp } else { Kind::Block },
+        kind: if force_k1 && i == 1 { Kind::NullSp } else if boundary || stack_only || interrupted { Kind::Block } else if focus == "c04" && rng.chance(1, 5) { Kind::Spin } else if rng.chance(1, 12) { Kind::NullSp } else { Kind::Block },
         sp_off: if stack_only { 0x800 } else if boundary && i >= 19 { [0u32, 8, 2040, 2048, 2056, 4088, 4095, 2047][i - 19] } else if rng.chance(3, 4) { *rng.pick(&offs) } else { rng.below(4096) as u32 },
         pages: if deep_ref && i == 0 { (10 << 16) | 3 } else if rng.chance(1, 6) { rng.range(3, 33) as u32 } else { rng.range(2, 4) as u32 },
         name: Some(format!("t{i}").into_bytes()),
@@ -147,11 +148,32 @@ pub fn configure(rng: &mut Rng, plan: &Plan, target: &Target) -> Configured {
     Configured { writer, blamed, crash, app, principal, ranges }
 }
 
+/// while set, the dumping thread receives a signal (handler without SA_RESTART) every 40 microseconds for the duration of the
+/// request: every blocking call the writer makes can return EINTR, which must only make it try again
+pub static INTERRUPT_DUMPER: std::sync::atomic::AtomicBool = std::sync::atomic::AtomicBool::new(false);
+struct Ticker(libc::timer_t);
+impl Ticker {
+    fn start() -> Option<Ticker> {
+        extern "C" fn nop(_: i32) {}
+        unsafe {
+            let mut sa: libc::sigaction = std::mem::zeroed(); sa.sa_sigaction = nop as *const () as usize; sa.sa_flags = 0; libc::sigaction(libc::SIGURG, &sa, std::ptr::null_mut());
+            let mut ev: libc::sigevent = std::mem::zeroed(); ev.sigev_notify = libc::SIGEV_THREAD_ID; ev.sigev_signo = libc::SIGURG; ev.sigev_notify_thread_id = libc::syscall(libc::SYS_gettid) as i32;
+            let mut t: libc::timer_t = std::mem::zeroed();
+            if libc::timer_create(libc::CLOCK_MONOTONIC, &mut ev, &mut t) != 0 { return None; }
+            let its = libc::itimerspec { it_interval: libc::timespec { tv_sec: 0, tv_nsec: 40_000 }, it_value: libc::timespec { tv_sec: 0, tv_nsec: 40_000 } };
+            libc::timer_settime(t, 0, &its, std::ptr::null_mut());
+            Some(Ticker(t))
+        }
+    }
+}
+impl Drop for Ticker { fn drop(&mut self) { unsafe { libc::timer_delete(self.0); } } }
+
 pub fn dump_once(cfg: &mut Configured, pid: i32) -> Result<(Result<Vec<u8>, String>, World, Vec<String>), String> { dump_once_failing(cfg, pid, None) }
 /// `fail_at`: the destination fails at that write/seek call (the request is expected to return an error)
 pub fn dump_once_failing(cfg: &mut Configured, pid: i32, fail_at: Option<usize>) -> Result<(Result<Vec<u8>, String>, World, Vec<String>), String> {
     let mut dest = crate::c09::RecDest::new(Vec::new(), 0, false); dest.fail_at = fail_at;
     let writer = &mut cfg.writer;
+    let _ticker = if INTERRUPT_DUMPER.load(std::sync::atomic::Ordering::SeqCst) { Ticker::start() } else { None };
     let (res, world, events) = with_hooks_ranges(pid, cfg.blamed, true, cfg.ranges.clone(), None, || quiet_catch(std::panic::AssertUnwindSafe(|| writer.dump(&mut dest).map_err(|e| format!("{e:?}")))));
     let image = match res { Err(p) => Err(format!("PANIC: {p}")), Ok(Err(e)) => Err(e), Ok(Ok(img)) => Ok(img) };
     let world = world.ok_or_else(|| format!("no world captured (dump result: {:?})", image.as_ref().err()))?;
@@ -456,11 +478,18 @@ pub fn run(a: &Args) {
         let mut plan = plan;
         let gone = focus == "c05" && case_idx == 1;
         if gone { plan.crash = 0; plan.skip = 0; plan.scen.threads.push(ThreadSpec { kind: Kind::Block, sp_off: 0x800, pages: 2, name: Some(b"taken".to_vec()), at: None }); plan.blame_idx = Some(plan.scen.threads.len() - 1); plan.exit_between = plan.blame_idx; }
+        // one fixed C04 run: no group stop before the attach (StopProcess fail point), so that the writer really waits for each
+        // thread, and a signal interrupts the dumping thread every 40 microseconds
+        let interrupted = focus == "c04" && case_idx == 1;
+        let mut client = if interrupted { Some(minidump_writer::FailSpotName::testing_client()) } else { None };
+        if let Some(c) = client.as_mut() { c.set_enabled(minidump_writer::FailSpotName::StopProcess, true); INTERRUPT_DUMPER.store(true, std::sync::atomic::Ordering::SeqCst); out.count("run.dumping_thread_interrupted_all_along"); }
         let fail_first = if gone || case_idx % 4 == 2 { out.count("history.abandoned_request_first"); Some(rng.range(4, 14) as usize) } else { None };
         match run_plan_hist(&mut rng, plan, &work, fail_first) {
             Ok(lv) => emit(&mut out, &lv, &aspects),
             Err(e) => { out.notes.push(format!("case skipped: {e}")); out.count("case.skipped"); }
         }
+        if let Some(c) = client.as_mut() { c.set_enabled(minidump_writer::FailSpotName::StopProcess, false); INTERRUPT_DUMPER.store(false, std::sync::atomic::Ordering::SeqCst); }
+        drop(client);
     }
     out.assumptions.push("what a stopped thread 'actually had' is what the harness reads itself with PTRACE_GETREGS/GETFPREGS and /proc/<pid>/mem inside the same suspended window (kernel interfaces trusted)".into());
     out.finish(&a.out, "live dumps of generated targets (0..63 threads: blocked with sentinel registers at chosen in-page SP offsets, spinning, null-SP helpers; anonymous rwx/rw/rx regions; application regions) under generated options (crash context blaming main / another / an unattachable thread with SP/IP around mapping boundaries, size limit, sanitize, skip-unreferenced); non-trivial per aspect (see input_distribution)");
